@@ -1197,6 +1197,21 @@ func (sk *SpaceKeeper) ConfigureByPath(paths []string, sizes []int, execPlot, ex
 		return wsiList, nil
 	}
 
+	// check every directory before creating anything: a rejected request must not leave new files behind
+	indexedWorkSpaces := sk.getIndexedWorkSpaces()
+	for i := range absDirs {
+		_, currentSize, finished := fillSpaceListByPathSize(absDirs[i], nil, indexedWorkSpaces, 0, sizes[i])
+		if finished {
+			continue
+		}
+		if !sk.allowGenerateNewSpace {
+			return failureReturn(ErrWorkSpaceCannotGenerate)
+		}
+		if err := checkOSDiskSizeByPath(absDirs[i], sizes[i]-currentSize); err != nil {
+			return failureReturn(err)
+		}
+	}
+
 	for i := range absDirs {
 		var currentSize, targetSize = 0, sizes[i]
 		var finished bool
